@@ -43,8 +43,11 @@ theorem uniSpaces_bytes : ∀ w ∈ uniSpaces, (∃ h t, w = h :: t ∧ h.toNat 
 theorem not_prefix_of_head_ne (h c : UInt8) (t rest : Bytes) (hne : h ≠ c) : (h :: t).isPrefixOf (c :: rest) = false := by
   simp [List.isPrefixOf, hne]
 
-theorem spacePrefixLen_ok (c : UInt8) (rest : Bytes) (h : secretCharOk c = true) : spacePrefixLen (c :: rest) = 0 := by
-  obtain ⟨hs, ha⟩ := secretCharOk_ascii c h
+/-- an ASCII byte that is not white space -/
+def plainChar (c : UInt8) : Prop := isAsciiSpace c = false ∧ c.toNat < 128
+
+theorem spacePrefixLen_ok (c : UInt8) (rest : Bytes) (h : plainChar c) : spacePrefixLen (c :: rest) = 0 := by
+  obtain ⟨hs, ha⟩ := h
   unfold spacePrefixLen
   simp only [hs]
   have : uniSpaces.find? (fun w => w.isPrefixOf (c :: rest)) = none := by
@@ -55,8 +58,8 @@ theorem spacePrefixLen_ok (c : UInt8) (rest : Bytes) (h : secretCharOk c = true)
     simp
   rw [this]; rfl
 
-theorem spaceSuffixLenRev_ok (c : UInt8) (rest : Bytes) (h : secretCharOk c = true) : spaceSuffixLenRev (c :: rest) = 0 := by
-  obtain ⟨hs, ha⟩ := secretCharOk_ascii c h
+theorem spaceSuffixLenRev_ok (c : UInt8) (rest : Bytes) (h : plainChar c) : spaceSuffixLenRev (c :: rest) = 0 := by
+  obtain ⟨hs, ha⟩ := h
   unfold spaceSuffixLenRev
   simp only [hs]
   have : uniSpaces.find? (fun w => w.reverse.isPrefixOf (c :: rest)) = none := by
@@ -75,7 +78,7 @@ theorem spaceSuffixLenRev_space (c : UInt8) (rest : Bytes) (h : isAsciiSpace c =
 
 /-- stripping from the left: ASCII white space `ws`, then a text that is empty or starts with a base32 character -/
 theorem trimLeft_strip (ws rest : Bytes) (hws : ∀ c ∈ ws, isAsciiSpace c = true)
-    (hrest : rest = [] ∨ ∃ c t, rest = c :: t ∧ secretCharOk c = true) :
+    (hrest : rest = [] ∨ ∃ c t, rest = c :: t ∧ plainChar c) :
     ∀ fuel, ws.length + 1 ≤ fuel → trimLeft fuel (ws ++ rest) = rest := by
   induction ws with
   | nil =>
@@ -93,7 +96,7 @@ theorem trimLeft_strip (ws rest : Bytes) (hws : ∀ c ∈ ws, isAsciiSpace c = t
     exact ih (fun c hc => hws c (by simp [hc])) f (by simp at hf ⊢; omega)
 
 theorem trimLeftRev_strip (ws rest : Bytes) (hws : ∀ c ∈ ws, isAsciiSpace c = true)
-    (hrest : rest = [] ∨ ∃ c t, rest = c :: t ∧ secretCharOk c = true) :
+    (hrest : rest = [] ∨ ∃ c t, rest = c :: t ∧ plainChar c) :
     ∀ fuel, ws.length + 1 ≤ fuel → trimLeftRev fuel (ws ++ rest) = rest := by
   induction ws with
   | nil =>
@@ -111,8 +114,8 @@ theorem trimLeftRev_strip (ws rest : Bytes) (hws : ∀ c ∈ ws, isAsciiSpace c 
     exact ih (fun c hc => hws c (by simp [hc])) f (by simp at hf ⊢; omega)
 
 /-- `TrimSpace (ws₁ ++ core ++ ws₂) = core` for ASCII white space around a core of base32 characters -/
-theorem trimSpace_strip (ws1 core ws2 : Bytes) (h1 : ∀ c ∈ ws1, isAsciiSpace c = true) (h2 : ∀ c ∈ ws2, isAsciiSpace c = true)
-    (hc : ∀ c ∈ core, secretCharOk c = true) : trimSpace (ws1 ++ core ++ ws2) = core := by
+theorem trimSpace_strip_plain (ws1 core ws2 : Bytes) (h1 : ∀ c ∈ ws1, isAsciiSpace c = true) (h2 : ∀ c ∈ ws2, isAsciiSpace c = true)
+    (hc : ∀ c ∈ core, plainChar c) : trimSpace (ws1 ++ core ++ ws2) = core := by
   unfold trimSpace
   cases core with
   | nil =>
@@ -137,7 +140,7 @@ theorem trimSpace_strip (ws1 core ws2 : Bytes) (h1 : ∀ c ∈ ws1, isAsciiSpace
     simp only [hl]
     simp [trimLeftRev]
   | cons c0 core' =>
-    have hrest : (c0 :: core') ++ ws2 = [] ∨ ∃ c t, (c0 :: core') ++ ws2 = c :: t ∧ secretCharOk c = true :=
+    have hrest : (c0 :: core') ++ ws2 = [] ∨ ∃ c t, (c0 :: core') ++ ws2 = c :: t ∧ plainChar c :=
       Or.inr ⟨c0, core' ++ ws2, rfl, hc c0 (by simp)⟩
     have hl : trimLeft (ws1 ++ (c0 :: core') ++ ws2).length (ws1 ++ (c0 :: core') ++ ws2) = (c0 :: core') ++ ws2 := by
       rw [List.append_assoc]
@@ -145,7 +148,7 @@ theorem trimSpace_strip (ws1 core ws2 : Bytes) (h1 : ∀ c ∈ ws1, isAsciiSpace
     simp only [hl]
     -- now from the right
     have hrev : ((c0 :: core') ++ ws2).reverse = ws2.reverse ++ (c0 :: core').reverse := by simp
-    have hlast : (c0 :: core').reverse = [] ∨ ∃ c t, (c0 :: core').reverse = c :: t ∧ secretCharOk c = true := by
+    have hlast : (c0 :: core').reverse = [] ∨ ∃ c t, (c0 :: core').reverse = c :: t ∧ plainChar c := by
       right
       cases hr : (c0 :: core').reverse with
       | nil => simp at hr
@@ -156,5 +159,15 @@ theorem trimSpace_strip (ws1 core ws2 : Bytes) (h1 : ∀ c ∈ ws1, isAsciiSpace
     rw [hrev]
     rw [trimLeftRev_strip ws2.reverse _ (by intro c hc'; exact h2 c (List.mem_reverse.mp hc')) hlast _ (by simp; try omega)]
     simp
+
+/-- the instance used for secrets: base32 characters are plain -/
+theorem trimSpace_strip (ws1 core ws2 : Bytes) (h1 : ∀ c ∈ ws1, isAsciiSpace c = true) (h2 : ∀ c ∈ ws2, isAsciiSpace c = true)
+    (hc : ∀ c ∈ core, secretCharOk c = true) : trimSpace (ws1 ++ core ++ ws2) = core :=
+  trimSpace_strip_plain ws1 core ws2 h1 h2 (fun c h => secretCharOk_ascii c (hc c h))
+
+/-- a text of plain characters is untouched by TrimSpace -/
+theorem trimSpace_plain (s : Bytes) (h : ∀ c ∈ s, plainChar c) : trimSpace s = s := by
+  have := trimSpace_strip_plain [] s [] (by simp) (by simp) h
+  simpa using this
 
 end OtpVerif.Lemmas
